@@ -225,6 +225,22 @@ let do_layout () =
     Buffer.add_string bs (string_of_int (int_of_nat (idx_gen (n r) (n t) (n k) (n q) (n a))) ^ " ") done done done;
   pr "%s sym %s\n" id (Buffer.contents bs)
 
+(* ---------- WAFF: the grid write_affinity_file must produce for a position-encoded vector ---------- *)
+let do_waff () =
+  let id = "W " ^ tok () in
+  let k = int () in let l = int () in let assort = int () = 1 in
+  let n = nat_of_int in
+  let ln = ref 1 in
+  for a = 0 to l - 1 do
+    pr "%s line %d : a= %d\n" id !ln a; incr ln;
+    for kk = 0 to k - 1 do
+      let cells = if assort then [int_of_nat (idx_ass (n k) (n l) (n kk) (n a))]
+                  else List.init k (fun q -> int_of_nat (idx_gen (n k) (n l) (n kk) (n q) (n a))) in
+      pr "%s line %d : %s\n" id !ln (String.concat " " (List.map string_of_int cells)); incr ln
+    done;
+    pr "%s line %d :\n" id !ln; incr ln
+  done
+
 let () =
   let ic = open_in Sys.argv.(1) in
   let oc = open_out Sys.argv.(2) in
@@ -240,6 +256,7 @@ let () =
          | "UPD" -> do_upd ()
          | "E2E" -> do_e2e ()
          | "LAYOUT" -> do_layout ()
+         | "WAFF" -> do_waff ()
          | "#" -> ()
          | c -> failwith ("unknown component " ^ c))
       with e -> pr "DRIVER-ERROR %s in: %s\n" (Printexc.to_string e) (String.sub line 0 (min 60 (String.length line))));
